@@ -531,6 +531,27 @@ impl Policy {
                                 && (s.contains("compare_and_swap#0") || s.contains("attempt#0") || s.contains("attempt#1") || s.contains("fallback#0"))
                         })
                         .collect();
+                    // hand-over window: a helper sits between reading the reader's address and its
+                    // compare-exchange on the reader's control word: let readers finish a load and
+                    // start the next one there
+                    let helper_waiting = ids.iter().any(|t| {
+                        let s = &parked[t].site;
+                        s.contains("Slots::help#3") || s.contains("Slots::help#4") || s.contains("Slots::help#5")
+                            || s.contains("Slots::help#6") || s.contains("Slots::help#7")
+                    });
+                    let readers: Vec<usize> = ids
+                        .iter()
+                        .copied()
+                        .filter(|t| !is_writer_api(apis.get(t).map(|x| x.as_str()).unwrap_or("")))
+                        .collect();
+                    if helper_waiting && !readers.is_empty() && rng.chance(1, 2) {
+                        let rt = readers[rng.range(0, readers.len())];
+                        if rng.chance(2, 3) {
+                            *burst = Some((rt, rng.range(15, 90)));
+                        }
+                        let spur = parked[&rt].weak_cas && rng.chance(1, 10);
+                        return Some((rt, spur));
+                    }
                     let others: Vec<usize> = writers.iter().copied().filter(|t| !cas_waiters.contains(t)).collect();
                     if !cas_waiters.is_empty() && !others.is_empty() && rng.chance(1, 2) {
                         let wt = others[rng.range(0, others.len())];
